@@ -934,6 +934,10 @@ def search(rng, tier, disagreements, known_ids):
                 name = toks[1][1:]
                 if name in WIRE:
                     kw = unkwtok(toks[2])
+                    try:        # only keyword arguments of the declared types are inputs of the property
+                        wire_fields(WIRE[name], kw)
+                    except Exception:
+                        continue
                     cands.append(PropCase("roundtrip", _inp(name, kw), (lambda name=name, kw=kw: chk_roundtrip(name, kw))))
             elif toks[0] == "parse":
                 name = toks[1][1:]
